@@ -207,6 +207,10 @@ func runHistories(r *ev.Run) {
 	variants := []chain.GenesisOptions{{}}
 	if prop == "C10" {
 		variants = append(variants, chain.GenesisOptions{MinTransactBalance: 10, LastBlockFees: 7, CommonPool: 1, EpochInterval: 2}, chain.GenesisOptions{MaxValidators: 1, EpochInterval: 2, MaxBlockGas: 5})
+		// common pool straddling the size of a proposer / signing reward (75..150) and of its commission
+		for _, cp := range []uint64{60, 70, 90, 110, 140, 160} {
+			variants = append(variants, chain.GenesisOptions{CommonPool: cp, EpochInterval: 2})
+		}
 	}
 	if prop == "C01" {
 		// all entities tied and the validator limit cutting into the tie: any order-dependent
